@@ -33,6 +33,10 @@ type ScriptSub struct {
 	LastOnClose int  // messages emitted inside Close() before the channel closes
 	LastOnCtx   int  // … when the context is cancelled
 	IgnoreCtx   bool // the subscription ends only through Close (a subscriber that does not watch its context)
+	Preload     int  // messages ready when Subscribe is called
+	SubGate     bool // Subscribe blocks until the scenario's sub gate opens
+	SubFail     int  // the first n Subscribe calls return an error
+	calls       int
 }
 
 type emitReq struct {
@@ -42,7 +46,21 @@ type emitReq struct {
 }
 
 func (s *ScriptSub) Subscribe(ctx context.Context, topic string) (<-chan *message.Message, error) {
+	s.mu.Lock()
+	s.calls++
+	fail := s.calls <= s.SubFail
+	s.mu.Unlock()
+	if fail {
+		s.rec.Log("sube", itoa(s.h))
+		return nil, errors.New("scripted subscriber: broker temporarily unavailable")
+	}
 	s.rec.Log("sub", itoa(s.h))
+	if s.SubGate {
+		select {
+		case <-s.sc.subGate:
+		case <-time.After(s.sc.bound + 10*time.Second):
+		}
+	}
 	s.mu.Lock()
 	defer s.mu.Unlock()
 	s.subscribed++
@@ -57,6 +75,10 @@ func (s *ScriptSub) Subscribe(ctx context.Context, topic string) (<-chan *messag
 	s.stop = make(chan struct{})
 	s.emitterWg.Add(1)
 	go s.emitter()
+	for i := 0; i < s.Preload; i++ {
+		m, u := s.sc.newMsg(s.h)
+		s.queue <- &emitReq{msg: m, u: u, done: make(chan bool, 1)}
+	}
 	go func() {
 		if s.IgnoreCtx {
 			return
